@@ -741,7 +741,7 @@ pub fn run(ctx: &Ctx, replay: Option<&Value>) {
     ctx.assume("macro hygiene against the caller's surrounding code is not explored: every invocation sits in its own closure with only its captured parameters in scope");
     let target = match ctx.tier {
         Tier::Quick => 1600usize,
-        Tier::Thorough => 12_000,
+        Tier::Thorough => 24_000,
     };
     let nbins = 16;
     // generation: deterministic from the seed
